@@ -104,6 +104,10 @@ func main() {
 							}
 							pkgVars[n.Name] = true
 							rep.PackageVars[pkgName(pkgDir)+"."+n.Name] = "hooked"
+							if i < len(s.Values) && isStatefulInit(s.Values[i]) {
+								statefulVars[n.Name] = true
+								rep.PackageVars[pkgName(pkgDir)+"."+n.Name] = "hooked; method calls on it count as writes (object built by a constructor outside the library)"
+							}
 						}
 					case *ast.TypeSpec:
 						if _, ok := s.Type.(*ast.StructType); ok {
@@ -470,6 +474,47 @@ func isNilNode(n ast.Node) bool {
 }
 
 // varRefs finds package-level variables mentioned in the nodes and whether each is written.
+// statefulVars: package-level variables that hold an object made by a constructor of another package which is not
+// known to return an immutable or internally synchronised value (rand.New, bytes.NewBuffer, flate.NewWriter, ...):
+// the library cannot see into its methods, so every method call on it is taken as a write to the variable's object.
+var statefulVars = map[string]bool{}
+
+func isStatefulInit(e ast.Expr) bool {
+	if u, ok := e.(*ast.UnaryExpr); ok && u.Op == token.AND {
+		e = u.X
+	}
+	switch x := e.(type) {
+	case *ast.CallExpr:
+		sel, ok := x.Fun.(*ast.SelectorExpr)
+		if !ok {
+			return false
+		}
+		pkg, ok := sel.X.(*ast.Ident)
+		if !ok {
+			return false
+		}
+		switch pkg.Name {
+		case "reflect", "errors", "fmt", "regexp", "sync", "atomic", "time", "unsafe", "binary", "math", "strconv":
+			return false
+		case "strings":
+			return sel.Sel.Name != "NewReplacer" // a Replacer is safe for concurrent use; Builder/Reader are not
+		}
+		return true
+	case *ast.CompositeLit:
+		// a composite literal of a type from another package (bytes.Buffer{}, rand.Rand{}...)
+		if sel, ok := x.Type.(*ast.SelectorExpr); ok {
+			if pkg, ok := sel.X.(*ast.Ident); ok {
+				switch pkg.Name {
+				case "sync", "atomic", "reflect", "time":
+					return false
+				}
+				return true
+			}
+		}
+	}
+	return false
+}
+
 func varRefs(nodes []ast.Node, pkgVars, locals map[string]bool) map[string]bool {
 	refs := map[string]bool{}
 	for _, n := range nodes {
@@ -489,6 +534,11 @@ func varRefs(nodes []ast.Node, pkgVars, locals map[string]bool) map[string]bool 
 					refs[id.Name] = true
 				}
 			case *ast.CallExpr:
+				if sel, ok := s.Fun.(*ast.SelectorExpr); ok {
+					if id := rootIdent(sel.X); id != nil && statefulVars[id.Name] && pkgVars[id.Name] && !locals[id.Name] {
+						refs[id.Name] = true
+					}
+				}
 				if f, ok := s.Fun.(*ast.Ident); ok && (f.Name == "delete" || f.Name == "clear") && len(s.Args) > 0 {
 					if id := rootIdent(s.Args[0]); id != nil && pkgVars[id.Name] && !locals[id.Name] {
 						refs[id.Name] = true
